@@ -5,6 +5,7 @@
 import VerdeModel.Model.Coords
 import VerdeModel.Model.Blocks
 import VerdeModel.Model.Windows
+import VerdeModel.Model.Grid
 namespace Verde
 open Val
 
@@ -129,7 +130,40 @@ def opsWindows (op : String) (a : List Val) : Option Val :=
         (← argAt (List Rat) a 4)))
   | _ => none
 
-def dispatchers : List (String → List Val → Option Val) := [opsCoords, opsBlocks, opsWindows]
+def coordArrOf (v : Val) : Option CoordArr :=
+  match (fromVal v : Option (List (List Rat))) with
+  | some a => if a.isEmpty then none else some (.d2 a)
+  | none => (fromVal v : Option (List Rat)).map .d1
+
+instance : ToVal Dataset := ⟨fun ds => toVal (([ds.dims.1, ds.dims.2], ds.east, ds.north),
+  (ds.extras.map fun (p : String × Arr2) => (p.1, p.2)), (ds.vars.map fun (p : String × Arr2) => (p.1, p.2)))⟩
+
+def opsGrid (op : String) (a : List Val) : Option Val :=
+  match op with
+  | "make_grid" => do
+      let r := makeGrid (← coordArrOf (← a[0]?)) (← coordArrOf (← a[1]?)) (← argAt (List Arr2) a 2)
+        (← argAt (Option (List Arr2)) a 3) (← argAt (Option (List String)) a 4) (← argAt (String × String) a 5)
+        (← argAt (Option (List String)) a 6)
+      pure (toVal r)
+  | "make_grid_table" => do
+      let r := makeGrid (← coordArrOf (← a[0]?)) (← coordArrOf (← a[1]?)) (← argAt (List Arr2) a 2)
+        (← argAt (Option (List Arr2)) a 3) (← argAt (Option (List String)) a 4) (← argAt (String × String) a 5)
+        (← argAt (Option (List String)) a 6)
+      pure (toVal (r.map gridToTable))
+  | "grid_to_table" => do
+      let dims ← argAt (String × String) a 0
+      let ds : Dataset := ⟨dims, ← argAt (List Rat) a 1, ← argAt (List Rat) a 2,
+        ← argAt (List (String × Arr2)) a 3, ← argAt (List (String × Arr2)) a 4⟩
+      pure (toVal (gridToTable ds))
+  | "to1d" => do
+      pure (toVal ((meshgridTo1d (← argAt Arr2 a 0) (← argAt Arr2 a 1) (← argAt (List Arr2) a 2)).map
+        fun (p : List Rat × List Rat) => [p.1, p.2]))
+  | "from1d" => do
+      let m := meshgridFrom1d (← argAt (List Rat) a 0) (← argAt (List Rat) a 1)
+      pure (toVal [m.1, m.2])
+  | _ => none
+
+def dispatchers : List (String → List Val → Option Val) := [opsCoords, opsBlocks, opsWindows, opsGrid]
 
 def runLine (line : String) : String :=
   match Val.parseLine line with
